@@ -581,7 +581,12 @@ func runC13(r *Report, tier string) {
 						if c.Val && c.Pred.Op == "call" && (isClass[c.Pred.S] == "int" || isClass[c.Pred.S] == "tstr") && strings.Contains(c.Pred.Args[0].String(), "index(") {
 							typed = true
 						}
-						if c.Val && c.Pred.Op == "res" && c.Pred.S == "1" && c.Pred.Args[0].Op == "call" && len(c.Pred.Args[0].Args) == 2 && c.Pred.Args[0].Args[0].String() == "$1" && strings.Contains(c.Pred.Args[0].Args[1].String(), "index(") {
+						// presence test: a boolean in-package lookup (f(map, elem) or the found-flag of one) that is true
+						pc := c.Pred
+						if pc.Op == "res" && len(pc.Args) == 1 {
+							pc = pc.Args[0]
+						}
+						if c.Val && pc.Op == "call" && len(pc.Args) == 2 && pc.Args[0].String() == "$1" && strings.Contains(pc.Args[1].String(), "index(") && P.calleeOfTerm(pc) != nil {
 							present = true
 						}
 					}
